@@ -534,6 +534,59 @@ def part2(tier, report):
         for outer_sym in [None, *syms]:
             for bound_to in (None, "Decimal"):
                 _retort_in_recipe(inner_syms, outer_sym, bound_to, report)
+        for how in ("extend", "replace"):
+            _derived_retort_in_recipe(inner_syms, how, report)
+
+
+def _derived_retort_in_recipe(inner_syms, how, report):
+    """Model: a retort derived by extend()/replace() from a retort that already served inside another recipe is a new provider:
+    placed in a second recipe it serves matched requests from ITS recipe (extension first) and ITS options."""
+    from adaptix.load_error import LoadError
+
+    log, calls = [], []
+    inner_providers = [build_provider(i, s, log, calls) for i, s in enumerate(inner_syms)]
+    parent = Retort(recipe=inner_providers, strict_coercion=False)
+    case = {"part": "derived_retort_in_recipe", "inner": [list(s) for s in inner_syms], "how": how}
+    report.case(key=("drir", inner_syms, how), nontrivial=True, sample=case)
+    report.count("traces_validated_against_impl", 1)
+    try:
+        with deadline(CASE_DEADLINE):
+            Retort(recipe=[parent]).get_loader(Decimal)      # the parent has served inside a recipe
+            del log[:]
+            if how == "extend":
+                ext = build_provider(200, ("Decimal", "plain"), log, calls)
+                derived = parent.extend(recipe=[ext])
+                ref_syms = (("Decimal", "plain"), *inner_syms)
+                tags = {0: 200, **{i + 1: i for i in range(len(inner_syms))}}
+            else:
+                derived = parent.replace(strict_coercion=True)
+                ref_syms = tuple(inner_syms)
+                tags = {i: i for i in range(len(inner_syms))}
+            ld = Retort(recipe=[derived], strict_coercion=False).get_loader(Decimal)
+    except CaseTimeout:
+        report.violation({"check": "C09.derived_retort_in_recipe", "problem": "does_not_terminate"}, f"{case}: no result", case)
+        return
+    except Exception as e:  # noqa: BLE001
+        report.violation({"check": "C09.derived_retort_in_recipe", "problem": "creation_failed"},
+                         f"{case}: {type(e).__name__}: {e}"[:300], case)
+        return
+    out = RefResult()
+    stages = ref_serve(ref_syms, "D", 0, out)
+    want = [(tags[i], loc) for i, loc in out.consults]
+    if log != want:
+        report.violation({"check": "C09.derived_retort_in_recipe", "problem": "consult_trace", "how": how},
+                         f"{case}: the derived retort inside a recipe consults {log}, its own recipe means {want} "
+                         f"(a retort derived from one that already served in a recipe still answers as its parent?)", case)
+        return
+    if how == "replace" and any(not isinstance(s, int) for s in stages):
+        # served by the builtin Decimal loader of the derived (strict) retort: an int datum is rejected; the lax parent accepts it
+        try:
+            res = ("ok", _norm(ld(1)))
+        except LoadError:
+            res = ("rejected",)
+        if res != ("rejected",):
+            report.violation({"check": "C09.derived_retort_in_recipe", "problem": "options", "how": how},
+                             f"{case}: load(1, Decimal) gave {res}; the derived retort is strict and must reject it", case)
 
 
 def _check_options(retort, sc, dt, hist, report):
